@@ -137,6 +137,13 @@ def curved_cases():
     out.append(('arc + two wires (triangle-like loop)', lambda: [A(6, 0, 180), W(3, E0, (0.0, 0.0, -1.0)), W(3, (0.0, 0.0, -1.0), E180)]))
     out.append(('open: arc + tail', lambda: [A(6, 0, 180), W(3, E180, (-2.0, 0.0, 0.5))]))
     out.append(('full circle', lambda: [A(12, 0, 360)]))
+    # the same circle drawn the other way round, from other start angles, and a hair short of a full turn (the two ends a
+    # fifth of the joining tolerance apart)
+    out.append(('full circle backwards 360..0', lambda: [A(12, 360, 0)]))
+    out.append(('full circle 0..-360', lambda: [A(9, 0, -360)]))
+    out.append(('full circle 90..-270 + wire beside it', lambda: [W(4, (3.0, 0.0, -1.0), (3.0, 0.5, 1.0)), A(10, 90, -270)]))
+    out.append(('full circle 37.3..397.3', lambda: [A(11, 37.3, 397.3)]))
+    out.append(('circle a hair short of a full turn', lambda: [A(12, 0, 360 - 0.0057)]))
     # a loop closed on itself that is not the first object with pulses (its own pulse numbers differ from the global ones)
     out.append(('wire beside it + full circle', lambda: [W(5, (3.0, 0.0, -1.0), (3.0, 0.0, 1.0)), A(12, 0, 360)]))
     out.append(('two coaxial full circles', lambda: [A(9, 0, 360), Arc(11, 2 * R, 0, 360, 0.002)]))
